@@ -192,8 +192,23 @@ impl FileSystem for OverlayFS {
                 _ => return Err(err),
             },
         }
-        self.write_path(path)?.create_dir()?;
         let whiteout_path = self.whiteout_path(path)?;
+        if whiteout_path.exists()? {
+            // the path was removed earlier and is created anew: whatever the lower layers still
+            // hold below it (e.g. below a file that shadowed a lower directory) stays removed
+            for layer in &self.layers[1..] {
+                let layer_path = layer.join(&path[1..])?;
+                if layer_path.is_dir()? {
+                    for child in layer_path.read_dir()? {
+                        let marker =
+                            self.whiteout_path(&format!("{}/{}", path, child.filename()))?;
+                        marker.parent().create_dir_all()?;
+                        marker.create_file()?;
+                    }
+                }
+            }
+        }
+        self.write_path(path)?.create_dir()?;
         if whiteout_path.exists()? {
             whiteout_path.remove_file()?;
         }
